@@ -3,8 +3,8 @@ from harness import checklevel
 from harness.runner import Job
 
 OUTSIDE = [
-    'EC aggregate (small difference) and ECDSA signature checks in relational '
-    'form (their soundness / totality are C02, C10, C18)',
+    'EC aggregate (small difference) check in relational form; ECDSA '
+    'signature checks only as one signature per curve on two curves',
     'real-kernel cross-talk inside fpylll / gmpy2',
     'batches larger than 2 (3 for the aggregate plumbing)',
     'CheckOpensslDenylist / CheckKeypairDenylist (string formatting / hash of '
@@ -211,8 +211,252 @@ def replay_ec_oracle(check):
   return bool(probs)
 
 
+def ecdsa_relational(rec, seed, check):
+  """A signature on a later-visited curve has the same entry and evidence
+  alone, after and before a signature of another issuer on an
+  earlier-visited curve (fresh check object for every batch)."""
+  import z3  # pylint: disable=g-import-not-at-top
+  from harness import common, pysym, stubs  # pylint: disable=g-import-not-at-top
+  from harness.common import ivar, inputs_of, T  # pylint: disable=g-import-not-at-top
+  from harness.props import c02, c18  # pylint: disable=g-import-not-at-top
+  pb, ec_util, util, sigc, hnp, cr50 = c02._mods()
+  cid = 2
+  later = [k for k, v in ec_util.CURVE_FACTORY.items() if v is not None]
+  cid2 = later[later.index(cid) + 1]
+  name2 = ec_util.CURVE_FACTORY[cid2].name
+  n1 = int(ec_util.CURVE_FACTORY[cid].n)
+  n2 = int(ec_util.CURVE_FACTORY[cid2].n)
+  rec.functions('paranoid_crypto.lib.ecdsa_sig_checks:%s.Check' % check,
+                'paranoid_crypto.lib.ecdsa_sig_checks:_IssuerDLogs')
+  rec.bounds('signature S1 on secp256r1 and S2 of another issuer on %s '
+             '(symbolic key points, s, hash); batches [S1, S2], [S2], '
+             '[S2, S1], each on a fresh check object; lattice reduction / '
+             'guess producers arbitrary but functions of their input; '
+             'BatchMultiplyG uninterpreted per curve' % name2)
+  MulG = {False: (z3.Function('MulGx', z3.IntSort(), z3.IntSort()),
+                  z3.Function('MulGy', z3.IntSort(), z3.IntSort())),
+          True: (z3.Function('MulG2x', z3.IntSort(), z3.IntSort()),
+                 z3.Function('MulG2y', z3.IntSort(), z3.IntSort()))}
+  cexs = []
+  reach = 0
+
+  def _key(x):
+    if isinstance(x, (list, tuple)):
+      return tuple(_key(y) for y in x)
+    if pysym.is_sym(x):
+      return ('t', T(x).get_id())
+    return ('v', x)
+
+  def reduce_stub(lat):
+    e = pysym.eng()
+    key = ('lll', _key(lat))
+    if key not in e.memo:
+      e.memo[key] = ([pysym.SInt(e.fresh('lll')) for _ in range(len(lat[0]))],
+                     lat)
+    return [list(e.memo[key][0])]
+
+  def mulg(self, scalars):
+    fx, fy = MulG[self.name == name2]
+    return [(pysym._wrap_int(fx(T(s_))), pysym._wrap_int(fy(T(s_))))
+            for s_ in scalars]
+
+  def hnp_curve(a, b_, curve_type, lcg, flags):
+    e = pysym.eng()
+    key = ('hnp', _key(a), _key(b_), curve_type, _key(lcg), _key(flags))
+    if key not in e.memo:
+      e.memo[key] = (pysym.SInt(e.fresh('guess')), (a, b_))
+    return [e.memo[key][0]]
+
+  def run(e):
+    kx, ky = ivar(e, 'kx', lo=0), ivar(e, 'ky', lo=0)
+    k2x, k2y = ivar(e, 'k2x', lo=0), ivar(e, 'k2y', lo=0)
+    s1, s2 = ivar(e, 's1', lo=1, hi=n1), ivar(e, 's2', lo=1, hi=n2)
+    h1 = ivar(e, 'h1', lo=0, hi=2**256)
+    h2 = ivar(e, 'h2', lo=0, hi=2**256)
+
+    def sig(which):
+      s = pb.ECDSASignature()
+      if which == 1:
+        s.issuer_key_info.curve_type = cid
+        s.issuer_key_info.x, s.issuer_key_info.y = kx, ky
+        s.ecdsa_sig_info.r = 1000
+        s.ecdsa_sig_info.s = s1
+        s.ecdsa_sig_info.message_hash = c18.HashVal(h1, 32)
+      else:
+        s.issuer_key_info.curve_type = cid2
+        s.issuer_key_info.x, s.issuer_key_info.y = k2x, k2y
+        s.ecdsa_sig_info.r = 2000
+        s.ecdsa_sig_info.s = s2
+        s.ecdsa_sig_info.message_hash = c18.HashVal(h2, 32)
+      return s
+
+    X, Y, Z = [sig(1), sig(2)], [sig(2)], [sig(2), sig(1)]
+    att = []
+    e.notes.update(X=X, Y=Y, Z=Z, att=att)
+    with stubs.patched(util, AttachInfo=lambda ti, nm, v: att.append(
+        (ti, nm, v))):
+      return [getattr(sigc, check)().Check(x) for x in (X, Y, Z)]
+
+  with stubs.patched(util, Bytes2Int=c18._b2i), \
+      stubs.patched(ec_util, gmpy=stubs.GMPY), \
+      stubs.patched(hnp, gmpy=stubs.GMPY, int=stubs.sym_int,
+                    lll=type('L', (), dict(reduce=staticmethod(reduce_stub))),
+                    HiddenNumberProblemForCurve=hnp_curve), \
+      stubs.patched(cr50, gmpy=stubs.GMPY, int=stubs.sym_int, abs=abs,
+                    lll=type('L', (), dict(reduce=staticmethod(reduce_stub)))), \
+      stubs.patched(sigc, logging=common.QUIET, format=lambda v, s_: v,
+                    int=stubs.sym_int), \
+      c18.checklevel_attr(ec_util.EcCurve, 'BatchMultiplyG', mulg):
+    for p in pysym.explore(run, max_paths=3000, feas_timeout_ms=1000):
+      e = p.eng
+      rec.path(p.kind)
+      if p.kind != 'return':
+        continue  # totality is C18
+      X, Y, Z, att = (e.notes[k_] for k_ in ('X', 'Y', 'Z', 'att'))
+
+      def view(sg):
+        ents = [r for r in sg.test_info.test_results if r.test_name == check]
+        infos = [(nm, v) for ti, nm, v in att if ti is sg.test_info]
+        return ents, infos, sg.test_info.weak
+
+      goals = []
+      for group in ([Y[0], X[1], Z[0]], [X[0], Z[1]]):
+        v0 = view(group[0])
+        for other in group[1:]:
+          v1 = view(other)
+          if not (len(v0[0]) == len(v1[0]) == 1):
+            goals.append(('same_entry_count', z3.BoolVal(False)))
+            continue
+          goals.append(('same_verdict', z3.And(
+              checklevel.b(v0[0][0].result) == checklevel.b(v1[0][0].result),
+              checklevel.b(v0[2]) == checklevel.b(v1[2]))))
+          # evidence: the same (name, value) list whenever flagged
+          if len(v0[1]) != len(v1[1]):
+            goals.append(('same_evidence', z3.BoolVal(False)))
+          for (na, va), (nb, vb) in zip(v0[1], v1[1]):
+            goals.append(('same_evidence', z3.And(
+                z3.BoolVal(na == nb), T(va) == T(vb)) if (
+                    pysym.is_sym(va) or pysym.is_sym(vb)) else z3.BoolVal(
+                        na == nb and va == vb)))
+      for name, g in goals:
+        g = z3.simplify(g)
+        if z3.is_true(g):
+          rec.obligation('proved')
+          continue
+        r, mdl, _ = e.prove(g, timeout_ms=60000)
+        if r == 'proved':
+          rec.obligation('proved')
+        elif r == 'unknown':
+          rec.obligation('unknown', '%s %s' % (check, name))
+        else:
+          cexs.append((name, {k_: str(v) for k_, v in
+                              inputs_of(e, mdl).items()}))
+      if not reach:
+        reach = 1
+        rec.sample(dict(check=check, curves=[cid, cid2]))
+  rec.reach(1, reach)
+  if cexs:
+    probs = ecdsa_oracle(check)
+    rec.replayed()
+    names = sorted({c[0] for c in cexs})
+    rec.violation('ecdsa_sig_checks.%s.Check' % check, names[0],
+                  '%s; concrete differential oracle: %s' %
+                  (', '.join(names), probs[:2] if probs else
+                   'no concrete witness found'), cexs[0][1],
+                  dict(module='harness.props.c17',
+                       function='replay_ecdsa_oracle', args=dict(check=check)),
+                  bool(probs))
+
+
+def ecdsa_oracle(check):
+  """Real check, real protobufs, real lattice code: one party using the same
+  private scalar on secp256r1 (weak nonces of the kind the check targets) and
+  on later-visited curves (full-entropy nonces); the healthy signatures alone
+  vs inside the mixed batch, in both orders."""
+  import hashlib  # pylint: disable=g-import-not-at-top
+  import random  # pylint: disable=g-import-not-at-top
+  from harness import common, pb2shim  # pylint: disable=g-import-not-at-top
+  pb = common.lib(fakes=False)
+  pb2shim.use_fakes(False)
+  from paranoid_crypto.lib import paranoid  # pylint: disable=g-import-not-at-top,unused-import
+  from paranoid_crypto.lib import ecdsa_sig_checks as sigc  # pylint: disable=g-import-not-at-top
+  from paranoid_crypto.lib import ec_util, util  # pylint: disable=g-import-not-at-top
+  rnd = random.Random(20240917)
+  d = rnd.getrandbits(255) | (1 << 254)
+
+  def sign(cid, k, msg):
+    c = ec_util.CURVE_FACTORY[cid]
+    n = int(c.n)
+    digest = hashlib.sha256(msg).digest()
+    z = c.TransformOrderLen(int.from_bytes(digest, 'big'), 256)
+    r = int(c.Multiply(c.g, k)[0]) % n
+    s = pow(k, -1, n) * (z + r * d) % n
+    pub = c.Multiply(c.g, d % n)
+    return (cid, r, s, digest, int(pub[0]), int(pub[1]))
+
+  def mk(t):
+    sg = pb.ECDSASignature()
+    sg.issuer_key_info.curve_type = t[0]
+    sg.ecdsa_sig_info.r = util.Int2Bytes(t[1])
+    sg.ecdsa_sig_info.s = util.Int2Bytes(t[2])
+    sg.ecdsa_sig_info.message_hash = t[3]
+    sg.issuer_key_info.x = util.Int2Bytes(t[4])
+    sg.issuer_key_info.y = util.Int2Bytes(t[5])
+    return sg
+
+  def verdict(sg):
+    ents = [(r.result, r.severity) for r in sg.test_info.test_results
+            if r.test_name == check]
+    info = util.GetAttachedInfo(sg.test_info, 'DISCRETE_LOG')
+    return ents, (info.value if info is not None else None), sg.test_info.weak
+
+  if check == 'CheckCr50U2f':
+    weak_k = lambda: sum((rnd.randrange(1, 256) * 0x01010101) << (32 * j)
+                         for j in range(8))
+    nweak = 2
+  else:
+    weak_k = lambda: rnd.getrandbits(120) | 1
+    nweak = 8
+  weak = [sign(2, weak_k(), b'weak-%d' % i) for i in range(nweak)]
+  others = [k_ for k_, v in ec_util.CURVE_FACTORY.items()
+            if v is not None and k_ != 2]
+  others = others[others.index(3):][:2] if 3 in others else others[:2]
+  problems = []
+  for cid_o in others:
+    n_o = int(ec_util.CURVE_FACTORY[cid_o].n)
+    healthy = sign(cid_o, (rnd.getrandbits(n_o.bit_length() + 64) % (n_o - 1))
+                   + 1, b'healthy')
+    cls = getattr(sigc, check)
+    alone = mk(healthy)
+    try:
+      cls().Check([alone])
+      after = [mk(t) for t in weak] + [mk(healthy)]
+      cls().Check(after)
+      before = [mk(healthy)] + [mk(t) for t in weak]
+      cls().Check(before)
+    except Exception as ex:  # pylint: disable=broad-except
+      problems.append('%s raised %r' % (check, ex))
+      continue
+    va, vb, vc = verdict(alone), verdict(after[-1]), verdict(before[0])
+    if not va == vb == vc:
+      problems.append('%s: healthy signature on curve %d alone %r, after the '
+                      'secp256r1 signatures %r, before them %r' %
+                      (check, cid_o, va, vb, vc))
+  return problems
+
+
+def replay_ecdsa_oracle(check):
+  probs = ecdsa_oracle(check)
+  for p_ in probs:
+    print(p_)
+  return bool(probs)
+
+
 def jobs(tier, seed):
   out = checklevel.relational_jobs('C17', ('c17',), tier)
+  for check in ('CheckCr50U2f', 'CheckNonceMSB', 'CheckLCGNonceGMP'):
+    out.append(Job('ecdsa_%s' % check, ecdsa_relational, dict(check=check),
+                   timeout=1800, cost=30))
   pairs = [(2, 2), (2, 5), (0, 2), (7, 2)] + (
       [(5, 2), (1, 2), (2, 0), (77, 2), (19, 19)] if tier == 'thorough'
       else [])
